@@ -524,8 +524,8 @@ def build_catalogue(ctx):
     S.append(Spec("armodels.armodel_residual", lambda rng, n: {"params": Arr([0.5, -0.25], data=False), "inputs": Arr(vec(rng, n))},
                   lambda a: armodels.armodel_residual(a["params"], a["inputs"]),
                   site="armodels.armodel_residual", margs=("params", "inputs")))
-    S.append(Spec("armodels.armodel_sim[2d,sim_ini]", lambda rng, n: {"params": Arr([0.5, -0.25], data=False),
-                                                                       "innov": Arr(mat(rng, n, 3))},
+    S.append(Spec("armodels.armodel_sim[sim_ini]", lambda rng, n: {"params": Arr([0.5, -0.25], data=False),
+                                                                    "innov": Arr(vec(rng, n), nan_at=maybe(rng, n))},
                   lambda a: armodels.armodel_sim(a["params"], a["innov"], 0.5, sim_ini=2.0)))
     S.append(Spec("armodels.armodel_residual[sim_mean,sim_ini]",
                   lambda rng, n: {"params": Arr([0.5, -0.25], data=False), "inputs": Arr(vec(rng, n), nan_at=maybe(rng, n))},
@@ -944,6 +944,20 @@ def build_catalogue(ctx):
     S.append(Spec("putils.kde[eps large,ngrid]", lambda rng, n: {"xy": Arr(mat(rng, max(n, 15), 2))},
                   lambda a: putils.kde(a["xy"], ngrid=9, eps=1e-3), seeded=True))
     return S
+
+
+# further combinations of options of functions that are already in the catalogue with their default / main options
+OPTION_VARIANTS = frozenset(
+    [f"metrics.pit[kind={kd},censor]" for kd in ("weak", "strict", "mean")]
+    + [f"sutils.standard_normal[rank_method={rm}]" for rm in ("min", "first", "dense")]
+    + ["metrics.pit[random,censor]", "metrics.alpha[KS,sudo_perc_threshold]", "metrics.iqr[coverage]",
+       "metrics.corr[censor,median]", "metrics.dscore[eps]", "metrics.absolute_peak_error[neventmax]",
+       "sutils.standard_normal[sorted]", "sutils.pareto_front[orientation=-1]", "sutils.lstsq[Rtest,rtest]",
+       "armodels.armodel_sim[sim_ini]", "armodels.armodel_residual[sim_mean,sim_ini]",
+       "armodels.armodel_sim[scalar params]", "dutils.lag[missing=]", "qualitycontrol.ismisscens[censor,eps]",
+       "qualitycontrol.islinear[npoints=3,thresh]", "signatures.eckhardt[options]", "signatures.fdcslope[trans]",
+       "signatures.goue[trans]", "boxplot.Boxplot[narrow,options,logscale]", "violinplot.Violin[npoints,nresample,ylim]",
+       "putils.qqplot[censor=None]", "putils.ecdfplot[cst]", "putils.kde[eps large,ngrid]"])
 
 
 # --------------------------------------------------------------------------
@@ -1759,8 +1773,14 @@ def collect(ctx):
     nmix = ctx.scale(2, 12)
     for spec in catalogue:
         classes = spec.classes or (CLASSES + [("mix", str(rng.randrange(10 ** 6)), "") for _ in range(nmix)])
+        variant = spec.name in OPTION_VARIANTS and not ctx.thorough
+        if variant and not spec.classes:
+            # quick tier: the option variants of a function on five input classes (all of them in the thorough
+            # tier); the value classes below are run on them as on every other entry of the catalogue
+            classes = [("nd", "f8", "C"), ("nd", "f8", "S"), ("nd", "f8", "F"), ("pd", "f8", "C"),
+                       CLASSES[rng.randrange(len(CLASSES))]]
         for cls in classes:
-            for k in range(nseeds):
+            for k in range(1 if variant else nseeds):
                 n = rng.choice([8, 9, 12]) if not ctx.thorough else rng.choice([5, 8, 13, 40, 150])
                 todo.append((spec.name, cls, rng.randrange(10 ** 9), n, None))
     # value classes (ties, censored, rounded, zeros, constant variable, repeated observations, missing values,
@@ -1871,7 +1891,7 @@ def collect(ctx):
                                                            if isinstance(x, np.ndarray)])))
         probe.holders.append(("PGlobal", (lambda: [hygrid.FLOWDIRCODE])))
         probe.records = []
-        cm.mark({"call": fname, "class": list(cls), "arguments": shown})
+        cm.mark({"call": fname, "class": list(cls), "vc": vc, "arguments": shown})
         res1, err = None, None
         try:
             res1 = canon(one_call())
